@@ -539,6 +539,18 @@ fn run_parent<P: Prop>(p: &P, opts: &RunOpts, n: usize) -> i32 {
     let wall = t0.elapsed().as_secs_f64();
     // a child's violation: copy its replay into the parent's replay directory
     let mut replay_path: Option<PathBuf> = None;
+    // a child that reported through its watchdog exits without writing evidence: take the path from its stdout
+    let stdout_replay: Option<String> = outputs
+        .iter()
+        .flat_map(|o| o.lines())
+        .find(|l| l.starts_with("VIOLATION property="))
+        .and_then(|l| l.split("replay=").nth(1))
+        .map(|s| s.trim().to_string());
+    if violation.is_none() {
+        if let Some(src) = &stdout_replay {
+            violation = Some(json!({"replay": src, "failure": {"signature": "hang", "expected": "result within the watchdog bound", "observed": "no result (confirmed by a fresh-process replay)"}}));
+        }
+    }
     if let Some(v) = &violation {
         if let Some(src) = v["replay"].as_str() {
             let dir = out_dir().join("replays").join(p.id());
